@@ -129,10 +129,12 @@ class Mk:
         """abstract object (model class `cls`) with symbolic / concrete fields"""
         f = {}
         for k, kind in fields.items():
-            if kind == "int":
+            if isinstance(kind, str) and kind == "int":
                 f[k] = self.int(f"{name}.{k}")
-            elif kind == "real":
+            elif isinstance(kind, str) and kind == "real":
                 f[k] = self.real(f"{name}.{k}")
+            elif isinstance(kind, str) and kind == "bool":
+                f[k] = self.bool(f"{name}.{k}")
             else:
                 f[k] = kind
                 self.obs[f"{name}.{k}"] = ("const", kind)
@@ -174,6 +176,7 @@ class Obligation:
     def formulas(self, extra_trig=False, instantiate=False):
         g = self.goal
         fs = list(self.hyps)
+        mono = bool(self.meta.get("sum_monotone"))
         if not isinstance(g, bool):
             sk_hyps, g = T.skolemize(T.to_z3(g))
             fs += sk_hyps
@@ -182,7 +185,7 @@ class Obligation:
             if instantiate == "hoisted":
                 # ground instances at all index terms, nested quantifiers hoisted (several rounds)
                 fs += T.instantiate_hoisted(fs)
-                fs += T.sum_axioms(fs)
+                fs += T.sum_axioms(fs, monotone=mono)
                 fs += T.ext_axioms(fs)
                 fs += T.theory_axioms(fs, extra_trig=extra_trig)
                 return fs
@@ -193,7 +196,7 @@ class Obligation:
             base = list(fs)
             for _ in range(3):
                 # congruence chains only (no sign instances: they multiply the Sum applications)
-                ax = T.sum_axioms(fs, done=done, signs=False)
+                ax = T.sum_axioms(fs, done=done, signs=False, monotone=mono)
                 inst = T.ematch(base, fs + ax, seen, cap=200, per_hyp=24)
                 fs += ax + inst
                 if not ax and not inst:
@@ -208,7 +211,7 @@ class Obligation:
             return fs
         done = set()
         for _ in range(2):
-            ax = T.sum_axioms(fs, done=done)
+            ax = T.sum_axioms(fs, done=done, monotone=mono)
             if not ax:
                 break
             fs += ax
@@ -299,6 +302,8 @@ class Ctx:
         full = f"{self.prefix}.{name}"
         if self.contract.options.get("solver"):
             meta = {**(meta or {}), "solver": self.contract.options["solver"]}
+        if self.contract.options.get("sum_monotone"):
+            meta = {**(meta or {}), "sum_monotone": True}
         ob = Obligation(full, state.pc, goal, meta)
         if goal is True:
             # decided by evaluation on this path (no solver needed); still counted
